@@ -1,0 +1,39 @@
+//! Verification hook (only built with `--cfg sylt_verif`): logical fuel.
+//!
+//! The compiler's driving loops call [tick]; when a limit has been set with
+//! [set_fuel] and is exceeded, [tick] panics with [FUEL_PAYLOAD] so that a
+//! harness can tell "did not terminate within N logical steps" apart from
+//! every other outcome without using a wall clock.
+use std::cell::Cell;
+
+pub const FUEL_PAYLOAD: &str = "sylt_verif: fuel exhausted";
+
+thread_local! {
+    static USED: Cell<u64> = Cell::new(0);
+    static LIMIT: Cell<u64> = Cell::new(u64::MAX);
+}
+
+/// Reset the counter and set the limit for the current thread.
+pub fn set_fuel(limit: u64) {
+    USED.with(|u| u.set(0));
+    LIMIT.with(|l| l.set(limit));
+}
+
+/// Ticks used since the last [set_fuel].
+pub fn used() -> u64 {
+    USED.with(|u| u.get())
+}
+
+#[inline]
+pub fn tick() {
+    let used = USED.with(|u| {
+        let n = u.get() + 1;
+        u.set(n);
+        n
+    });
+    if used > LIMIT.with(|l| l.get()) {
+        // Disarm so that unwinding code that ticks does not panic again.
+        LIMIT.with(|l| l.set(u64::MAX));
+        panic!("{}", FUEL_PAYLOAD);
+    }
+}
